@@ -1,15 +1,56 @@
-"""C17 RSync makes every target tree equal to the source, minimally (thin -> partial)."""
+"""C17 RSync makes every target tree equal to the source, minimally (thin -> partial).
+
+Obligations are phrased over value terms and call events along all feasible paths of the
+helper-inlined functions (sa/terms.py): which value reaches which position of a message, a
+chmod or a comparison -- independent of local names, hoisting, branch order and helper extraction.
+"""
 
 from __future__ import annotations
 
 import ast
+import itertools
 
-from ..cfg import Oracle, build_cfg
+from ..cfg import Oracle
 from ..index import AnalysisError, UNKNOWN, norm, unparse
 from ..report import Ctx
-from ..util import Facts, callee_attr, calls_in_node, cfg_nodes_with_call, feasible_paths
+from ..terms import NONE, Evaluator, cmp_term, const, evaluator, implies, mentions, show, subterms, tv
+from ..util import callee_attr
 
 TAGS = {"send", "list_done", "ack", "links", "done"}
+
+
+def all_paths(ev: Evaluator, limit: int = 40000):
+    heads = {n.id for n in ev.cfg.nodes if n.kind in ("test", "for") and isinstance(n.owner, (ast.While, ast.For))}
+    return ev.run(back_stops=heads, limit=limit)
+
+
+def _fs_oracle(repo, fi):
+    """file-system calls may fail with OSError (so that `except OSError` arms are live)"""
+    fs = {"os.lstat", "os.chmod", "os.utime", "os.unlink", "os.readlink", "os.symlink", "os.makedirs", "os.listdir", "open", "os.path.relpath"}
+
+    def raises(c, f):
+        name = unparse(c.func)
+        if name in fs:
+            return [("ValueError", True)] if name == "os.path.relpath" else [("OSError", True)]
+        return None
+    return Oracle(repo, fi, precise=True, call_raises=raises)
+
+
+def _fresh_of(t, label: str) -> bool:
+    return isinstance(t, tuple) and t[0] == "fresh" and t[2] == label
+
+
+def _kind(t) -> str:
+    """kind of a structure message term: list / tuple / none / other"""
+    if t == NONE:
+        return "none"
+    if t[0] == "tuple":
+        return "tuple"
+    if t[0] in ("list",) or (t[0] == "new" and t[2] == "list") or (t[0] == "comp" and t[1] == "list") or (t[0] == "pcall" and t[1] == "list"):
+        return "list"
+    if t[0] == "bin" and t[1] == "Add" and _kind(t[2]) == "list" and _kind(t[3]) == "list":
+        return "list"
+    return "other"
 
 
 def check(ctx: Ctx) -> None:
@@ -17,244 +58,418 @@ def check(ctx: Ctx) -> None:
     ctx.decides = ("request tags and structure-message kinds agree between sender and receiver; (mode, mtime, size), the link triple and the "
                    "(relcomponents, checksum) request keep their roles on both sides; a regular file's chmod receives the transmitted mode unmodified; "
                    "relpath() is applied only to absolute link targets; deletion is guarded by the delete option; the regular-file decision table; "
-                   "mode and mtime are applied to every listed file after the content step; each target gets the complete link list.")
+                   "mode and mtime are applied to every listed file after the content step; each target gets the complete link list.  Decided over "
+                   "value terms along all feasible CFG paths (helpers inlined).")
     ctx.not_decided = "file-system outcomes over generated trees and prior target states."
     f_srv = repo.func("rsync_remote.serve_rsync")
     f_rds = repo.func("rsync_remote.serve_rsync.receive_directory_structure")
     f_send = repo.func("rsync.RSync.send")
+    fsi = repo.func("rsync.RSync._send_item")
+
+    ev_rds = evaluator(repo, f_rds, _fs_oracle(repo, f_rds))
+    rds_paths = list(all_paths(ev_rds))
+    ev_srv = evaluator(repo, f_srv, _fs_oracle(repo, f_srv))
+    srv_paths = list(all_paths(ev_srv))
+    ev_send = evaluator(repo, f_send)
+    send_paths = list(all_paths(ev_send))
+
+    def msg_of(st):
+        r = [e.result for e in st.events if e.kind == "call" and e.callee == "channel.receive"]
+        return r[0] if r else None
+
+    def loc(st, name):
+        """terms a local of serve_rsync may be known by (a symbol inside its nested functions)"""
+        return [("sym", name)] + ([st.env[name]] if name in st.env else [])
+
+    def st_of(st):
+        r = [e.result for e in st.events if e.kind == "call" and e.callee == "os.lstat" and not e.raised]
+        return r[0] if r else None
 
     with ctx.obligation("C17.a", "tags") as ob:
-        sent = {}
-        for fi in (f_srv, f_rds):
-            for c in repo.calls_in(fi):
-                if callee_attr(c) == "send" and c.args and isinstance(c.args[0], ast.Tuple) and isinstance(c.args[0].elts[0], ast.Constant):
-                    sent[c.args[0].elts[0].value] = (fi, c)
-        handled = {}
-        for x in repo.own_nodes(f_send):
-            if isinstance(x, ast.Compare) and unparse(x.left) == "req[0]" and isinstance(x.ops[0], ast.Eq) and isinstance(x.comparators[0], ast.Constant):
-                handled[x.comparators[0].value] = x
+        sent: dict[str, tuple] = {}
+        for fi, paths in ((f_srv, srv_paths), (f_rds, rds_paths)):
+            for (_p, st) in paths:
+                for e in st.events:
+                    if e.kind == "call" and e.callee == "channel.send" and e.args and e.args[0][0] == "tuple" and len(e.args[0]) >= 2 and e.args[0][1][0] == "const" and isinstance(e.args[0][1][1], str):
+                        sent.setdefault(e.args[0][1][1], (fi, e.node))
+        handled: dict[str, set] = {}
+        for (_p, st) in send_paths:
+            tags = [t[3][1] for (t, v) in st.cond if v is True and t[0] == "cmp" and t[1] == "eq" and t[3][0] == "const" and isinstance(t[3][1], str)
+                    and t[2][0] == "idx" and t[2][2] == const(0)]
+            if tags:
+                callees = {e.callee for e in st.events if e.kind == "call" and e.callee and e.callee.startswith("self._") and e.ncond >= 1}
+                handled.setdefault(tags[-1], set()).update(callees)
         ob.site(f_send, f_send.node, "request tags", sent=sorted(sent), handled=sorted(handled))
         for t in sorted(set(sent) - set(handled)):
             ob.violation(sent[t][0], sent[t][1], f"the receiver sends request tag {t!r}, which RSync.send does not dispatch: the request is silently dropped and the sync never completes")
         for t in sorted(set(handled) - set(sent)):
-            ob.violation(f_send, handled[t], f"RSync.send dispatches tag {t!r}, which the receiver never sends")
+            ob.violation(f_send, f_send.node, f"RSync.send dispatches tag {t!r}, which the receiver never sends", construct=f"dispatches {t}")
         if set(sent) != TAGS:
             ob.violation(f_srv, f_srv.node, f"receiver tags {sorted(sent)} differ from the protocol's {sorted(TAGS)}", construct=f"tags {sorted(sent)}")
-        # handlers of the tags
-        want = {"links": "_process_link", "done": "_done", "list_done": "_list_done", "send": "_send_item"}
-        cfg = build_cfg(repo, f_send, Oracle(repo, f_send, precise=True))
+        want = {"links": "self._process_link", "done": "self._done", "list_done": "self._list_done", "send": "self._send_item"}
         for tag, meth in want.items():
-            nodes = cfg_nodes_with_call(cfg, lambda c: callee_attr(c) == meth)
-            ok = False
-            for nd in nodes:
-                f = Facts(repo, f_send, {})
-                for (t, lab) in cfg.guards(nd.id):
-                    if t.kind == "test":
-                        f.assume(t.ast, lab == "true")
-                if f.get(f"req[0] == '{tag}'") is True:
-                    ok = True
-            ob.site(f_send, nodes[0].ast if nodes else f_send.node, f"tag {tag!r} -> {meth}", ok=ok)
+            ok = meth in handled.get(tag, set())
+            ob.site(f_send, f_send.node, f"tag {tag!r} -> {meth}", ok=ok)
             if not ok:
-                ob.violation(f_send, f_send.node, f"tag {tag!r} is not handled by {meth}", construct=f"{tag}->{meth}")
+                ob.violation(f_send, f_send.node, f"tag {tag!r} is not handled by {meth.split('.')[1]}", construct=f"{tag}->{meth.split('.')[1]}")
         # structure message kinds: list / tuple / None
         kinds = {"list": False, "tuple": False, "none": False}
         for q in ("rsync.RSync._send_directory", "rsync.RSync._send_directory_structure", "rsync.RSync._send_link_structure"):
             fi = repo.func(q)
-            for c in repo.calls_in(fi):
-                if callee_attr(c) == "_broadcast":
-                    a = c.args[0]
-                    if isinstance(a, ast.List):
-                        kinds["list"] = True
-                    elif isinstance(a, ast.Tuple):
-                        kinds["tuple"] = True
-                        if len(a.elts) != 3:
-                            ob.violation(fi, c, "a file entry is not broadcast as a 3-tuple")
-                    elif isinstance(a, ast.Constant) and a.value is None:
-                        kinds["none"] = True
-                    else:
-                        ob.violation(fi, c, f"structure message of unknown kind: {norm(a)}")
-        tests = [unparse(x.test) for x in repo.own_nodes(f_rds) if isinstance(x, ast.If)]
-        ob.site(f_rds, f_rds.node, "structure kinds (list=dir, tuple=file, None=link)", sender=kinds, receiver_tests=[t for t in tests if "msg" in t][:3])
-        if not all(kinds.values()) or "isinstance(msg, list)" not in tests or "msg is not None" not in tests:
+            evq = evaluator(repo, fi, _fs_oracle(repo, fi))
+            for (_p, st) in all_paths(evq):
+                for e in st.events:
+                    if e.kind == "call" and e.callee == "self._broadcast" and e.args:
+                        k = _kind(e.args[0])
+                        if k == "other":
+                            ob.violation(fi, e.node, f"structure message of unknown kind: {show(e.args[0])}")
+                        else:
+                            kinds[k] = True
+                            if k == "tuple" and len(e.args[0]) != 4:
+                                ob.violation(fi, e.node, "a file entry is not broadcast as a 3-tuple")
+        rk = {"list": False, "none": False}
+        for (_p, st) in rds_paths:
+            m = msg_of(st)
+            if m is None:
+                continue
+            for (t, _v) in st.cond:
+                if t == ("pcall", "isinstance", (m, ("sym", "list")), ()):
+                    rk["list"] = True
+                if t == cmp_term("is", m, NONE):
+                    rk["none"] = True
+        ob.site(f_rds, f_rds.node, "structure kinds (list=dir, tuple=file, None=link)", sender=kinds, receiver_tests=rk)
+        if not all(kinds.values()) or not all(rk.values()):
             ob.violation(f_rds, f_rds.node, "sender and receiver disagree on the three structure-message kinds (list / tuple / None)")
+
+    FIELDS = ("st_mode", "st_mtime", "st_size")
 
     with ctx.obligation("C17.b", "stat-roles") as ob:
         fds = repo.func("rsync.RSync._send_directory_structure")
-        tup = [c.args[0] for c in repo.calls_in(fds) if callee_attr(c) == "_broadcast" and isinstance(c.args[0], ast.Tuple) and "st." in unparse(c.args[0])]
-        ob.require(len(tup) == 1, "sender's (mode, mtime, size) tuple not found")
-        have = [unparse(e) for e in tup[0].elts]
-        ob.site(fds, tup[0], "sender tuple", fields=have)
-        if have != ["st.st_mode", "st.st_mtime", "st.st_size"]:
-            ob.violation(fds, tup[0], f"the file entry is sent as {have}, not (st_mode, st_mtime, st_size)")
-        un = [x for x in repo.own_nodes(f_rds) if isinstance(x, ast.Assign) and isinstance(x.targets[0], ast.Tuple) and unparse(x.value) == "msg"]
-        ob.require(len(un) == 1 and len(un[0].targets[0].elts) == 3, "receiver's unpacking of the file entry not found")
-        m, t, s = [unparse(e) for e in un[0].targets[0].elts]
-        cmps = [unparse(x) for x in repo.own_nodes(f_rds) if isinstance(x, ast.Compare)]
-        ob.site(f_rds, un[0], "receiver roles", names=[m, t, s])
-        for name, fld in ((m, "st.st_mode"), (t, "st.st_mtime"), (s, "st.st_size")):
-            if f"{name} != {fld}" not in cmps:
-                ob.violation(f_rds, un[0], f"position of `{name}` is not compared with {fld}: the tuple roles of sender and receiver disagree")
-        # second consumer: (mode, time, size) in the content loop
-        loops = [x for x in repo.own_nodes(f_srv) if isinstance(x, ast.For) and "modifiedfiles" in unparse(x.iter)]
-        ob.require(len(loops) == 1, "content loop over modifiedfiles not found")
-        tgt = loops[0].target
-        ok = isinstance(tgt, ast.Tuple) and isinstance(tgt.elts[1], ast.Tuple) and len(tgt.elts[1].elts) == 3
-        if ok:
-            mm, tt, _ss = [unparse(e) for e in tgt.elts[1].elts]
-            calls = {unparse(c.func): c for s_ in loops[0].body for c in ast.walk(s_) if isinstance(c, ast.Call)}
-            ch, ut = calls.get("os.chmod"), calls.get("os.utime")
-            ok = ch is not None and ut is not None and unparse(ch.args[1]) == mm and unparse(ut.args[1]) == f"({tt}, {tt})"
-        ob.site(f_srv, loops[0], "content loop applies transmitted mode and mtime", ok=ok)
-        if not ok:
-            ob.violation(f_srv, loops[0], "the content loop does not apply the transmitted (mode -> chmod, mtime -> utime) in their roles")
-        ap = [c for c in repo.calls_in(f_rds) if callee_attr(c) == "append" and "modifiedfiles" in unparse(c.func)]
-        if len(ap) != 1 or unparse(ap[0].args[0]) != "(path, msg)":
-            ob.violation(f_rds, f_rds.node, "the (path, entry) pair is not recorded for the content step")
-        # link triple
-        fl = repo.func("rsync.RSync._send_link")
-        lt = [c.args[0] for c in repo.calls_in(fl) if callee_attr(c) == "append" and isinstance(c.args[0], ast.Tuple)]
-        un2 = [x for x in repo.own_nodes(f_srv) if isinstance(x, ast.Assign) and isinstance(x.targets[0], ast.Tuple) and len(x.targets[0].elts) == 3 and "msg" in unparse(x.value)]
-        ok = len(lt) == 1 and [unparse(e) for e in lt[0].elts] == ["linktype", "basename", "linkpoint"] and len(un2) == 1 and [unparse(e) for e in un2[0].targets[0].elts] == ["_type", "relpath", "linkpoint"]
-        ob.site(fl, lt[0] if lt else fl.node, "link triple (type, name relative to the tree, target)", ok=ok)
-        if not ok:
-            ob.violation(fl, fl.node, "the link triple (type, relative name, target) is built/unpacked in different roles")
+        evd = evaluator(repo, fds, _fs_oracle(repo, fds))
+        ntup = 0
+        for (_p, st) in all_paths(evd):
+            s0 = st_of(st)
+            for e in st.events:
+                if e.kind == "call" and e.callee == "self._broadcast" and e.args and e.args[0][0] == "tuple" and s0 is not None and mentions(e.args[0], s0):
+                    ntup += 1
+                    have = e.args[0][1:]
+                    ok = have == tuple(("attr", s0, f) for f in FIELDS)
+                    ob.site(fds, e.node, "sender tuple (st_mode, st_mtime, st_size) of the lstat result", fields=[show(x) for x in have], ok=ok)
+                    if not ok:
+                        ob.violation(fds, e.node, f"the file entry is sent as {[show(x) for x in have]}, not (st_mode, st_mtime, st_size)")
+        ob.require(ntup >= 1, "sender's (mode, mtime, size) tuple not found")
+        seen_roles = set()
+        for (_p, st) in rds_paths:
+            m, s0 = msg_of(st), st_of(st)
+            if m is None or s0 is None:
+                continue
+            for (t, _v) in st.cond:
+                for x in subterms(t):
+                    if x[0] == "cmp" and x[1] in ("eq", "ne"):
+                        pair = [x[2], x[3]]
+                        mi = [y for y in pair if y[0] == "idx" and y[1] == m and y[2][0] == "const"]
+                        sf = [y for y in pair if y[0] == "attr" and y[1] == s0]
+                        if len(mi) == 1 and len(sf) == 1:
+                            i, fld = mi[0][2][1], sf[0][2]
+                            seen_roles.add((i, fld))
+                            if (i, fld) not in ((0, "st_mode"), (1, "st_mtime"), (2, "st_size")):
+                                ob.violation(f_rds, f_rds.node, f"position {i} of the file entry is compared with st.{fld}: the tuple roles of sender and receiver disagree",
+                                             construct=f"entry[{i}] vs {fld}")
+        ob.site(f_rds, f_rds.node, "receiver roles", compared=sorted(seen_roles))
+        for (i, fld) in ((0, "st_mode"), (1, "st_mtime"), (2, "st_size")):
+            if (i, fld) not in seen_roles:
+                ob.violation(f_rds, f_rds.node, f"position {i} of the file entry is not compared with st.{fld}: the tuple roles of sender and receiver disagree", construct=f"entry[{i}] never compared with {fld}")
+        # second consumer: the content loop over the recorded (path, entry) pairs
+        nmeta = 0
+        for (_p, st) in srv_paths:
+            for e in st.events:
+                if e.kind == "call" and e.callee in ("os.chmod", "os.utime") and len(e.args) == 2 and e.args[0][0] == "idx" and e.args[0][1][0] == "elem" and e.args[0][1][1] in loc(st, "modifiedfiles"):
+                    E = e.args[0][1]
+                    nmeta += 1
+                    want_ = ("idx", ("idx", E, const(1)), const(0)) if e.callee == "os.chmod" else ("tuple", ("idx", ("idx", E, const(1)), const(1)), ("idx", ("idx", E, const(1)), const(1)))
+                    ok = e.args[0] == ("idx", E, const(0)) and e.args[1] == want_
+                    ob.site(f_srv, e.node, f"content loop: {e.callee} gets the transmitted {'mode' if e.callee == 'os.chmod' else 'mtime'} of the recorded entry", ok=ok)
+                    if not ok:
+                        ob.violation(f_srv, e.node, "the content loop does not apply the transmitted (mode -> chmod, mtime -> utime) in their roles")
+        if nmeta < 2:
+            ob.violation(f_srv, f_srv.node, "the content loop does not apply the transmitted (mode -> chmod, mtime -> utime) in their roles", construct="no chmod/utime on recorded entries")
+        rec = 0
+        for (_p, st) in rds_paths:
+            m = msg_of(st)
+            for e in st.events:
+                if e.kind == "call" and e.callee == "modifiedfiles.append":
+                    rec += 1
+                    if not e.args or e.args[0] != ("tuple", ("sym", "path"), m):
+                        ob.violation(f_rds, e.node, "the (path, entry) pair is not recorded for the content step")
+        if rec == 0:
+            ob.violation(f_rds, f_rds.node, "the (path, entry) pair is not recorded for the content step", construct="no record")
         # the request ("send", (relcomponents, checksum)) -> _send_item(channel, req[1][0], req[1][1])
-        rq = [c for c in repo.calls_in(f_rds) if callee_attr(c) == "send" and isinstance(c.args[0], ast.Tuple) and repo.fold_in(c.args[0].elts[0], f_rds) == "send"]
-        si = [c for c in repo.calls_in(f_send) if callee_attr(c) == "_send_item"]
-        ok = len(rq) == 1 and unparse(rq[0].args[0].elts[1]) == "(relcomponents, checksum)" and len(si) == 1 and [unparse(a) for a in si[0].args] == ["channel", "req[1][0]", "req[1][1]"]
-        fsi = repo.func("rsync.RSync._send_item")
-        ok = ok and fsi.params()[1:4] == ["channel", "modified_rel_path_components", "checksum"]
-        ob.site(f_rds, rq[0] if rq else f_rds.node, "request (relcomponents, checksum) reaches _send_item in its roles", ok=ok)
-        if not ok:
-            ob.violation(f_rds, f_rds.node, "the content request's (path components, checksum) do not reach _send_item in their roles")
+        rq = 0
+        for (_p, st) in rds_paths:
+            for e in st.events:
+                if e.kind == "call" and e.callee == "channel.send" and e.args and e.args[0][0] == "tuple" and e.args[0][1] == const("send"):
+                    rq += 1
+                    body = e.args[0][2] if len(e.args[0]) == 3 else None
+                    if not (body is not None and body[0] == "tuple" and len(body) == 3 and body[1] == ("sym", f_rds.params()[1])):
+                        ob.violation(f_rds, e.node, "the content request's (path components, checksum) do not reach _send_item in their roles")
+        si = 0
+        for (_p, st) in send_paths:
+            for e in st.events:
+                if e.kind == "call" and e.callee == "self._send_item":
+                    si += 1
+                    a = e.args
+                    ok = len(a) == 3 and a[1][0] == "idx" and a[1][2] == const(0) and a[2] == ("idx", a[1][1], const(1)) and a[1][1][0] == "idx" and a[1][1][2] == const(1) \
+                        and a[1][1][1][0] == "idx" and a[0] == ("idx", a[1][1][1][1], const(0))
+                    if not ok:
+                        ob.violation(f_send, e.node, "the content request's (path components, checksum) do not reach _send_item in their roles")
+        ps = fsi.params()
+        evi = evaluator(repo, fsi, _fs_oracle(repo, fsi))
+        item_paths = list(all_paths(evi))
+        uses = {"join": False, "cmp": False}
+        for (_p, st) in item_paths:
+            for e in st.events:
+                if e.kind == "call" and e.callee == "os.path.join" and ("star", ("sym", ps[2])) in e.args:
+                    uses["join"] = True
+            for (t, _v) in st.cond:
+                for x in subterms(t):
+                    if x[0] == "cmp" and x[1] == "eq" and ("sym", ps[3]) in (x[2], x[3]) and any(mentions(y, ("pcall", "md5", (z,), ())) for y in (x[2], x[3]) for z in subterms(y) if z[0] == "fresh"):
+                        uses["cmp"] = True
+        ob.site(f_rds, f_rds.node, "request (relcomponents, checksum) reaches _send_item in its roles", requests=rq, dispatches=si, uses=uses)
+        if rq == 0 or si == 0 or not all(uses.values()):
+            ob.violation(f_rds, f_rds.node, "the content request's (path components, checksum) do not reach _send_item in their roles", construct="request roles")
+        # link triple: recorded by _send_link, unpacked by the receiver's link loop (checked with C17.d's symlink roles)
+        fl = repo.func("rsync.RSync._send_link")
+        evl = evaluator(repo, fl)
+        okl = False
+        for (_p, st) in all_paths(evl):
+            for e in st.events:
+                if e.kind == "call" and e.callee == "self._links.append":
+                    okl = e.args == (("tuple",) + tuple(("sym", x) for x in fl.params()[1:4]),)
+        ob.site(fl, fl.node, "link triple (type, name relative to the tree, target)", ok=okl)
+        if not okl:
+            ob.violation(fl, fl.node, "the link triple (type, relative name, target) is built/unpacked in different roles")
 
     with ctx.obligation("C17.c", "mode-exact") as ob:
         n = 0
-        for fi in (f_srv, f_rds):
-            for c in repo.calls_in(fi):
-                if unparse(c.func) != "os.chmod":
-                    continue
-                n += 1
-                in_dir = any(isinstance(a, ast.If) and unparse(a.test) == "isinstance(msg, list)" and any(c is y for s_ in a.body for y in ast.walk(s_)) for a in repo.ancestors(c))
-                m = c.args[1]
-                plain = isinstance(m, ast.Name)
-                ob.site(fi, c, "chmod of a " + ("directory (| 0o700 intended: received trees must stay writable)" if in_dir else "regular file"), mode=unparse(m))
-                if not in_dir and not plain:
-                    ob.violation(fi, c, f"a regular file is chmod'ed with `{unparse(m)}` instead of the transmitted mode: permission bits differ from the source")
-                if in_dir and not (plain or unparse(m) in ("mode | 0o700", "mode | 448")):
-                    ob.violation(fi, c, f"directory mode `{unparse(m)}` is neither the transmitted mode nor mode | 0o700")
+        seen = set()
+        for fi, paths in ((f_srv, srv_paths), (f_rds, rds_paths)):
+            for (_p, st) in paths:
+                m = msg_of(st) if fi is f_rds else None
+                for e in st.events:
+                    if not (e.kind == "call" and e.callee == "os.chmod" and len(e.args) == 2):
+                        continue
+                    cond = st.cond[:e.ncond]
+                    M = e.args[1]
+                    in_dir = m is not None and (("pcall", "isinstance", (m, ("sym", "list")), ()), True) in cond
+                    if fi is f_rds:
+                        sent_mode = [("idx", m, const(0))] + [x.result for x in st.events if x.kind == "call" and x.attr == "pop" and x.recv == m and x.args == (const(0),)]
+                    else:
+                        sent_mode = [M] if (M[0] == "idx" and M[2] == const(0) and M[1][0] == "idx" and M[1][2] == const(1) and M[1][1][0] == "elem") else []
+                    plain = M in sent_mode
+                    ok = plain or (in_dir and M[0] == "bin" and M[1] == "BitOr" and M[2] in sent_mode and M[3] in (const(0o700),))
+                    if id(e.node) not in seen:
+                        seen.add(id(e.node))
+                        n += 1
+                        ob.site(fi, e.node, "chmod of a " + ("directory (| 0o700 intended: received trees must stay writable)" if in_dir else "regular file"), mode=show(M))
+                    if not ok and not in_dir:
+                        ob.violation(fi, e.node, f"a regular file is chmod'ed with `{show(M)}` instead of the transmitted mode: permission bits differ from the source")
+                    elif not ok:
+                        ob.violation(fi, e.node, f"directory mode `{show(M)}` is neither the transmitted mode nor mode | 0o700")
         ob.require(n >= 3, f"{n} chmod sites (floor 3)")
 
     with ctx.obligation("C17.d", "link-cwd") as ob:
         fls = repo.func("rsync.RSync._send_link_structure")
-        cfg = build_cfg(repo, fls, Oracle(repo, fls, precise=True))
-        rel = cfg_nodes_with_call(cfg, lambda c: unparse(c.func) == "os.path.relpath")
-        ob.require(len(rel) == 1, "os.path.relpath call not found")
-        c = [x for x in calls_in_node(rel[0]) if unparse(x.func) == "os.path.relpath"][0]
-        p = unparse(c.args[0])
-        f = Facts(repo, fls, {})
-        for (t, lab) in cfg.guards(rel[0].id):
-            if t.kind == "test":
-                f.assume(t.ast, lab == "true")
-        ok = f.get(f"os.path.isabs({p})") is True
-        ob.site(fls, c, f"relpath({p}, ...) only for absolute link targets", ok=ok)
-        if not ok:
-            ob.violation(fls, c, f"os.path.relpath({p}, sourcedir) is evaluated for relative link targets: the result depends on the caller's working directory")
-        rl = [x for x in repo.own_nodes(fls) if isinstance(x, ast.Assign) and unparse(x.targets[0]) == p]
-        if not rl or unparse(rl[0].value) != "os.readlink(path)":
-            ob.violation(fls, fls.node, "the link target is not what os.readlink returns")
-        # classification: inside the tree -> linkbase + relative; else -> link + verbatim
-        sl = [c2 for c2 in repo.calls_in(fls) if callee_attr(c2) == "_send_link"]
-        args = sorted([unparse(a) for a in c2.args] for c2 in sl)
-        ob.site(fls, sl[0] if sl else fls.node, "classification", calls=args)
-        if args != sorted([["'linkbase'", "basename", "relpath"], ["'link'", "basename", p]]):
-            ob.violation(fls, fls.node, "links are not classified as ('linkbase', name, path relative to the tree) / ('link', name, verbatim target)")
-        # receiver side
-        sy = [c2 for c2 in repo.calls_in(f_srv) if unparse(c2.func) == "os.symlink"]
-        ok = len(sy) == 1 and [unparse(a) for a in sy[0].args] == ["src", "path"]
-        srcs = sorted(unparse(x.value) for x in repo.own_nodes(f_srv) if isinstance(x, ast.Assign) and unparse(x.targets[0]) == "src")
-        if not ok or srcs != ["linkpoint", "os.path.join(destdir, linkpoint)"]:
-            ob.violation(f_srv, f_srv.node, "the receiver does not re-create links as destdir-relative ('linkbase') / verbatim ('link')")
+        evs = evaluator(repo, fls, _fs_oracle(repo, fls))
+        nrel = 0
+        classes = set()
+        for (_p, st) in all_paths(evs):
+            lp = [e.result for e in st.events if e.kind == "call" and e.callee == "os.readlink"]
+            for e in st.events:
+                if e.kind == "call" and e.callee == "os.path.relpath":
+                    nrel += 1
+                    P = e.args[0] if e.args else None
+                    ok = P is not None and (("pcall", "os.path.isabs", (P,), ()), True) in st.cond[:e.ncond]
+                    ob.site(fls, e.node, f"relpath({show(P)}, ...) only for absolute link targets", ok=ok)
+                    if not ok:
+                        ob.violation(fls, e.node, f"os.path.relpath({show(P)}, sourcedir) is evaluated for relative link targets: the result depends on the caller's working directory")
+                    if not lp or P != lp[0]:
+                        ob.violation(fls, e.node, "the link target is not what os.readlink returns")
+                if e.kind == "call" and e.callee == "self._send_link" and len(e.args) == 3:
+                    kind, name, tgt = e.args
+                    if kind == const("linkbase"):
+                        ok = tgt[0] == "pcall" and tgt[1] == "os.path.relpath" and lp and tgt[2][0] == lp[0]
+                    elif kind == const("link"):
+                        ok = bool(lp) and tgt == lp[0]
+                    else:
+                        ok = False
+                    classes.add(kind[1] if kind[0] == "const" else show(kind))
+                    base_ok = name[0] == "slice" and name[1] == ("sym", "path")
+                    if not ok or not base_ok:
+                        ob.violation(fls, e.node, "links are not classified as ('linkbase', name, path relative to the tree) / ('link', name, verbatim target)")
+        ob.require(nrel >= 1, "os.path.relpath call not found")
+        ob.site(fls, fls.node, "classification", kinds=sorted(classes))
+        if classes != {"linkbase", "link"}:
+            ob.violation(fls, fls.node, "links are not classified as ('linkbase', name, path relative to the tree) / ('link', name, verbatim target)", construct=f"classes {sorted(classes)}")
+        # receiver side: symlink(src, path) with the roles of the triple
+        nsym = 0
+        for (_p, st) in srv_paths:
+            for e in st.events:
+                if e.kind == "call" and e.callee == "os.symlink" and len(e.args) == 2:
+                    nsym += 1
+                    src, dst = e.args
+                    DEST = dst[2][0] if dst[0] == "pcall" and dst[2] and dst[2][0] in loc(st, "destdir") else None
+                    ok = dst[0] == "pcall" and dst[1] == "os.path.join" and len(dst[2]) == 2 and DEST is not None and dst[2][1][0] == "idx" and dst[2][1][2] == const(1)
+                    if ok:
+                        L = dst[2][1][1]
+                        isbase = st.known.get(cmp_term("eq", ("idx", L, const(0)), const("linkbase")))
+                        islink = st.known.get(cmp_term("eq", ("idx", L, const(0)), const("link")))
+                        if isbase is True:
+                            ok = src == ("pcall", "os.path.join", (DEST, ("idx", L, const(2))), ())
+                        elif isbase is False or islink is True:
+                            ok = src == ("idx", L, const(2))
+                        else:
+                            ok = False
+                    ob.site(f_srv, e.node, "links re-created destdir-relative ('linkbase') / verbatim ('link')", ok=ok)
+                    if not ok:
+                        ob.violation(f_srv, e.node, "the receiver does not re-create links as destdir-relative ('linkbase') / verbatim ('link')")
+        if nsym == 0:
+            ob.violation(f_srv, f_srv.node, "the receiver does not re-create links as destdir-relative ('linkbase') / verbatim ('link')", construct="no symlink")
 
     with ctx.obligation("C17.e", "delete-guard") as ob:
-        cfg = build_cfg(repo, f_rds, Oracle(repo, f_rds, precise=True))
-        rm = cfg_nodes_with_call(cfg, lambda c: isinstance(c.func, ast.Name) and c.func.id == "remove" and unparse(c.args[0]) == "otherpath")
-        ob.require(len(rm) == 1, "removal of unlisted entries not found")
-        f = Facts(repo, f_rds, {})
-        for (t, lab) in cfg.guards(rm[0].id):
-            if t.kind == "test":
-                f.assume(t.ast, lab == "true")
-        ok = f.get("options.get('delete')") is True and f.get("othername in entrynames") is False
-        ob.site(f_rds, rm[0].ast, "unlisted entries removed only with delete=True", ok=ok)
-        if not ok:
-            ob.violation(f_rds, rm[0].ast, "entries that are not in the source are removed without the delete option (or listed entries are removed)")
-        frm = repo.func("rsync_remote.serve_rsync.remove")
-        if not any(isinstance(x, ast.Assert) and "startswith(destdir)" in unparse(x.test) for x in repo.own_nodes(frm)):
-            ob.note("remove(): containment assert absent")
+        nrm = 0
+        for (_p, st) in rds_paths:
+            m = msg_of(st)
+            for e in st.events:
+                if not (e.kind == "call" and e.callee == "remove" and e.args):
+                    continue
+                others = [x for x in subterms(e.args[0]) if x[0] == "elem" and _fresh_of(x[1], "os.listdir")]
+                if not others:
+                    continue
+                nrm += 1
+                other = others[0]
+                cond = st.cond[:e.ncond]
+                opt = [x.result for x in st.events if x.kind == "call" and x.callee == "options.get" and x.args[:1] == (const("delete"),)]
+                guarded = any((o, True) in cond for o in opt)
+                listed_ok = False
+                for (t, v) in cond:
+                    if t[0] == "cmp" and t[1] == "in" and t[2] == other and v is False:
+                        listed_ok = _is_listed(t[3], m, [s_ for (_q, s_) in rds_paths])
+                ok = guarded and listed_ok
+                ob.site(f_rds, e.node, "unlisted entries removed only with delete=True", ok=ok)
+                if not ok:
+                    ob.violation(f_rds, e.node, "entries that are not in the source are removed without the delete option (or listed entries are removed)")
+        ob.require(nrm >= 1, "removal of unlisted entries not found")
 
     with ctx.obligation("C17.f", "decision-table") as ob:
-        cfg = build_cfg(repo, f_rds, Oracle(repo, f_rds, precise=True))
-        base = Facts(repo, f_rds, {})
-        for k, v in (("isinstance(msg, list)", False), ("msg is None", False), ("st", True), ("stat.S_ISREG(st.st_mode)", True), ("msg_mode", True)):
-            base.set_atom(k, v)
-        rows = {}
-        for path, facts in feasible_paths(repo, f_rds, cfg, base, limit=4000, kill_on_store=False):
-            if path[-1][0] != cfg.exit.id:
+        rows: dict[tuple, set] = {}
+        example = {}
+        for (p, st) in rds_paths:
+            if p[-1][0] != ev_rds.cfg.exit.id:
                 continue
-            size_ne, mtime_ne, mode_ne = facts.get("msg_size == st.st_size") is False, facts.get("msg_mtime == st.st_mtime") is False, facts.get("msg_mode == st.st_mode") is False
-            req = any(cfg.nodes[n].ast is not None and any(callee_attr(c) == "send" for c in calls_in_node(cfg.nodes[n])) for n, _ in path)
-            chk = any(isinstance(cfg.nodes[n].ast, ast.Assign) and unparse(cfg.nodes[n].ast.targets[0]) == "checksum" and "md5" in unparse(cfg.nodes[n].ast.value) for n, _ in path)
-            chm = any(cfg.nodes[n].ast is not None and any(unparse(c.func) == "os.chmod" for c in calls_in_node(cfg.nodes[n])) for n, _ in path)
-            case = "size" if size_ne else ("mtime" if mtime_ne else ("mode" if mode_ne else "same"))
-            rows.setdefault(case, set()).add((req, chk, chm))
-        want = {"size": {(True, False, False)}, "mtime": {(True, True, False)}, "mode": {(False, False, True)}, "same": {(False, False, False)}}
-        for case in want:
-            ob.site(f_rds, f_rds.node, f"existing regular file, first difference: {case}", outcome=sorted(rows.get(case, [])), expected="(request, checksum, chmod) = " + str(sorted(want[case])))
-            if rows.get(case) != want[case]:
-                ob.violation(f_rds, f_rds.node, f"decision table row `{case}` is {sorted(rows.get(case, []))}, expected (request, checksum, chmod) = {sorted(want[case])}",
-                             construct=f"row {case}: {sorted(rows.get(case, []))}")
+            m, s0 = msg_of(st), st_of(st)
+            if m is None or s0 is None:
+                continue
+            if (("pcall", "isinstance", (m, ("sym", "list")), ()), False) not in st.cond or (cmp_term("is", m, NONE), False) not in st.cond:
+                continue
+            A = {"st": s0, "isreg": ("pcall", "stat.S_ISREG", (("attr", s0, "st_mode"),), ()), "mm": ("idx", m, const(0)),
+                 "size": cmp_term("eq", ("idx", m, const(2)), ("attr", s0, "st_size")), "mtime": cmp_term("eq", ("idx", m, const(1)), ("attr", s0, "st_mtime")),
+                 "mode": cmp_term("eq", ("idx", m, const(0)), ("attr", s0, "st_mode"))}
+            req = [e for e in st.events if e.kind == "call" and e.callee == "channel.send" and e.args and e.args[0][0] == "tuple" and e.args[0][1] == const("send")]
+            chk = bool(req) and len(req[0].args[0]) == 3 and req[0].args[0][2][0] == "tuple" and len(req[0].args[0][2]) == 3 and req[0].args[0][2][2] != NONE
+            chm = any(e.kind == "call" and e.callee == "os.chmod" and e.args[1:] == (A["mm"],) for e in st.events)
+            out = (bool(req), chk, chm)
+            for (sz, mt, md) in itertools.product((False, True), repeat=3):
+                known = {A["st"]: True, A["isreg"]: True, A["mm"]: True, A["size"]: sz, A["mtime"]: mt, A["mode"]: md}
+                if all(tv(c, known) in (None, v) for (c, v) in st.cond):
+                    rows.setdefault((sz, mt, md), set()).add(out)
+        nrows = 0
+        for (sz, mt, md) in itertools.product((False, True), repeat=3):
+            want_ = (True, False, False) if not sz else ((True, True, False) if not mt else ((False, False, True) if not md else (False, False, False)))
+            got = rows.get((sz, mt, md), set())
+            case = "size" if not sz else ("mtime" if not mt else ("mode" if not md else "same"))
+            nrows += 1
+            ob.site(f_rds, f_rds.node, f"existing regular file, size_eq={sz} mtime_eq={mt} mode_eq={md}", outcome=sorted(got), expected="(request, checksum, chmod) = " + str(want_))
+            if got != {want_}:
+                ob.violation(f_rds, f_rds.node, f"decision table row `{case}` is {sorted(got)}, expected (request, checksum, chmod) = [{want_}]",
+                             construct=f"row {case}: {sorted(got)}")
         # sender: None iff checksums match; receiver writes only non-None data
-        fsi = repo.func("rsync.RSync._send_item")
-        cond = [x for x in repo.own_nodes(fsi) if isinstance(x, ast.If) and "md5(data).digest()" in unparse(x.test)]
-        ok = len(cond) == 1 and unparse(cond[0].test) == "checksum is not None and checksum == md5(data).digest()" and any(isinstance(s_, ast.Assign) and unparse(s_.targets[0]) == "data" and unparse(s_.value) == "None" for s_ in cond[0].body)
-        ob.site(fsi, cond[0] if cond else fsi.node, "sender answers None iff the checksums match", ok=ok)
-        if not ok:
+        ps = fsi.params()
+        CHK = ("sym", ps[3])
+        nsend = 0
+        okall = True
+        for (p, st) in item_paths:
+            if p[-1][0] != evi.cfg.exit.id:
+                continue
+            snd = [e for e in st.events if e.kind == "call" and e.callee == f"{ps[1]}.send"]
+            if len(snd) != 1 or len(snd[0].args) != 1:
+                ob.violation(fsi, fsi.node, "_send_item does not answer each request with exactly one data item")
+                continue
+            nsend += 1
+            A_ = snd[0].args[0]
+            datas = [e.result for e in st.events if e.kind == "call" and e.attr == "read" and not e.raised]
+            if not datas:
+                ok = A_ == NONE
+            else:
+                D = datas[0]
+                if st.known.get(cmp_term("is", D, NONE)) is True:
+                    continue  # read() cannot return None: infeasible in the real program, harmless either way
+                match = ("and", ("not", cmp_term("is", CHK, NONE)), cmp_term("eq", CHK, ("pcall", ("meth", ("pcall", "md5", (D,), ()), "digest"), (), ())))
+                if implies(st.cond, match) is True:
+                    ok = A_ == NONE
+                elif implies(st.cond, ("not", match)) is True:
+                    ok = A_ == D
+                else:
+                    ok = False
+            okall = okall and ok
+        ob.site(fsi, fsi.node, "sender answers None iff the checksums match (or the file is unreadable)", ok=okall and nsend >= 2)
+        if not okall or nsend < 2:
             ob.violation(fsi, fsi.node, "the sender does not answer `None` exactly when the receiver's checksum equals the source's md5")
-        snd = [c for c in repo.calls_in(fsi) if callee_attr(c) == "send" and unparse(c.func.value) == "channel"]
-        if len(snd) != 1 or unparse(snd[0].args[0]) != "data":
-            ob.violation(fsi, fsi.node, "_send_item does not answer each request with exactly one data item")
-        loops = [x for x in repo.own_nodes(f_srv) if isinstance(x, ast.For) and "modifiedfiles" in unparse(x.iter)]
-        wr = [x for x in ast.walk(loops[0]) if isinstance(x, ast.Call) and callee_attr(x) == "write"] if loops else []
         okw = False
-        for w in wr:
-            okw = any(isinstance(a, ast.If) and unparse(a.test) == "data is not None" for a in repo.ancestors(w))
-        ob.site(f_srv, wr[0] if wr else f_srv.node, "receiver writes only non-None data", ok=okw)
+        for (_p, st) in srv_paths:
+            for e in st.events:
+                if e.kind == "call" and e.attr == "write" and e.args and _fresh_of(e.args[0], "channel.receive"):
+                    okw = (cmp_term("is", e.args[0], NONE), False) in st.cond[:e.ncond]
+                    if not okw:
+                        ob.violation(f_srv, e.node, "the receiver writes file content although the sender answered 'unchanged' (None)")
+        ob.site(f_srv, f_srv.node, "receiver writes only non-None data", ok=okw)
         if not okw:
-            ob.violation(f_srv, f_srv.node, "the receiver writes file content although the sender answered 'unchanged' (None)")
+            ob.violation(f_srv, f_srv.node, "the receiver writes file content although the sender answered 'unchanged' (None)", construct="no guarded write")
 
     with ctx.obligation("C17.g", "metadata-always") as ob:
         # mode and mtime are applied to every listed file after the content step, also when the content was unchanged
-        loops = [x for x in repo.own_nodes(f_srv) if isinstance(x, ast.For) and "modifiedfiles" in unparse(x.iter)]
-        ob.require(len(loops) == 1, "content loop not found")
-        lp = loops[0]
-        early = [x for s_ in lp.body for x in ast.walk(s_) if isinstance(x, (ast.Continue, ast.Break, ast.Return))]
-        meta = [s_ for s_ in lp.body if any(isinstance(x, ast.Call) and unparse(x.func) in ("os.chmod", "os.utime") for x in ast.walk(s_))]
-        cond_meta = [s_ for s_ in meta if isinstance(s_, ast.If)]
-        ob.site(f_srv, lp, "chmod/utime unconditional in the content loop", early_exits=len(early))
-        for e in early:
-            ob.violation(f_srv, e, "an iteration of the content loop can be cut short before mode/mtime are applied: a file whose content was unchanged keeps a stale mtime/mode "
-                                   "and is re-checksummed on every later sync")
-        if not meta or cond_meta:
-            ob.violation(f_srv, lp, "mode/mtime are not applied unconditionally to each listed file")
-        rc = [c for s_ in lp.body for c in ast.walk(s_) if isinstance(c, ast.Call) and callee_attr(c) == "receive"]
-        ak = [c for s_ in lp.body for c in ast.walk(s_) if isinstance(c, ast.Call) and callee_attr(c) == "send" and "ack" in unparse(c)]
-        if len(rc) != 1 or len(ak) != 1:
-            ob.violation(f_srv, lp, "each listed file does not take exactly one data item and send exactly one ack")
+        niter = 0
+        for (p, st) in srv_paths:
+            Es = [e.value for e in st.events if e.kind == "assign" and e.value[0] == "idx" and e.value[1][0] == "elem" and e.value[1][1] in loc(st, "modifiedfiles")]
+            if not Es:
+                continue
+            E = Es[0][1]
+            head = E[2]
+            if p[-1][0] != head or p[-1][1] == "":
+                continue  # not a full trip round the content loop
+            niter += 1
+            first = next(i for i, e in enumerate(st.events) if e.kind == "iter" and e.nid == head)
+            calls = [e for e in st.events[first:] if e.kind == "call"]
+            raised = any(e.raised for e in calls)
+            rc = [e for e in calls if e.callee == "channel.receive"]
+            ak = [e for e in calls if e.callee == "channel.send" and e.args and e.args[0][0] == "tuple" and e.args[0][1] == const("ack")]
+            ut = [e for e in calls if e.callee == "os.utime"]
+            ch = [e for e in calls if e.callee == "os.chmod"]
+            mode = ("idx", ("idx", E, const(1)), const(0))
+            if len(rc) != 1 or len(ak) != 1:
+                ob.violation(f_srv, f_srv.node, "each listed file does not take exactly one data item and send exactly one ack")
+            if not raised:
+                want_ch = st.known.get(mode)
+                if not ut or (want_ch is True and not ch):
+                    ob.violation(f_srv, f_srv.node, "an iteration of the content loop can be cut short before mode/mtime are applied: a file whose content was unchanged keeps a stale mtime/mode "
+                                                    "and is re-checksummed on every later sync", construct="iteration without utime/chmod")
+        ob.site(f_srv, f_srv.node, "chmod/utime on every complete trip round the content loop", trips=niter)
+        ob.require(niter >= 2, "content loop not found")
 
     with ctx.obligation("C17.h", "links-per-target") as ob:
         # _links is collected once and replayed to every target: it must not be consumed
         muts = []
-        for fi in repo.cls("RSync").methods.values():
+        for fi0 in repo.cls("RSync").methods.values():
+            fi = repo.func(fi0.qualname)
             for x in repo.own_nodes(fi):
                 if isinstance(x, ast.Call) and isinstance(x.func, ast.Attribute) and unparse(x.func.value) == "self._links" and x.func.attr in ("pop", "clear", "remove"):
                     muts.append((fi, x))
@@ -266,13 +481,45 @@ def check(ctx: Ctx) -> None:
         ob.site(fpl, None, "the link list is only appended to while scanning and replayed unchanged to each target", consuming_sites=len(muts))
         for fi, x in muts:
             ob.violation(fi, x, "the shared link list is consumed/cleared: a target that asks for its links later receives none of them")
-        loops = [x for x in repo.own_nodes(fpl) if isinstance(x, ast.For)]
-        ok = len(loops) == 1 and unparse(loops[0].iter) == "self._links" and any(callee_attr(c) == "send" and unparse(c.args[0]) == unparse(loops[0].target) for c in repo.calls_in(fpl))
-        marker = [c for c in repo.calls_in(fpl) if callee_attr(c) == "send" and repo.fold_in(c.args[0], fpl) == 42]
-        if not ok or len(marker) != 1:
+        evp = evaluator(repo, fpl)
+        ch = ("sym", fpl.params()[1])
+        each = marker = False
+        for (p, st) in all_paths(evp):
+            for e in st.events:
+                if e.kind == "call" and e.callee == f"{ch[1]}.send" and e.args:
+                    if e.args[0][0] == "elem" and e.args[0][1] == ("sym", "self._links"):
+                        each = True
+                    if e.args[0] == const(42) and p[-1][0] == evp.cfg.exit.id:
+                        marker = True
+        if not each or not marker:
             ob.violation(fpl, fpl.node, "_process_link does not send every recorded link followed by the completion marker")
-        # broadcast reaches every target
         fb = repo.func("rsync.RSync._broadcast")
-        lb = [x for x in repo.own_nodes(fb) if isinstance(x, ast.For)]
-        if len(lb) != 1 or unparse(lb[0].iter) != "self._channels" or not any(callee_attr(c) == "send" for c in repo.calls_in(fb)):
+        evb = evaluator(repo, fb)
+        okb = False
+        for (_p, st) in all_paths(evb):
+            for e in st.events:
+                if e.kind == "call" and e.attr == "send" and e.recv is not None and e.recv[0] == "elem" and e.recv[1] == ("sym", "self._channels") and e.args == (("sym", fb.params()[1]),):
+                    okb = True
+        if not okb:
             ob.violation(fb, fb.node, "_broadcast does not send the structure message to every target channel")
+
+
+def _is_listed(L, m, states) -> bool:
+    """L denotes the collection of entry names listed in the directory message m"""
+    if m is None:
+        return False
+    names = [m, ("slice", m, const(1), None)]
+    if L in names:
+        return True
+    if L[0] == "pcall" and L[1] in ("frozenset", "set", "list", "tuple", "dict.fromkeys") and L[2] and L[2][0] in names:
+        return True
+    if L[0] == "new":
+        for st in states:
+            for e in st.events:
+                if e.kind == "store" and e.recv == L and e.key[0] == "elem" and e.key[1] in names:
+                    return True
+                if e.kind == "call" and e.attr in ("add", "append") and e.recv == L and e.args and e.args[0][0] == "elem" and e.args[0][1] in names:
+                    return True
+    if L[0] == "comp" and len(L[3]) == 1 and L[3][0][1] in names:
+        return True
+    return False
